@@ -14,8 +14,8 @@ Executable model (core Lean only) of `/repo/encoding/protojson/well_known_types.
   `2006-01-02T15:04:05.999999999Z07:00`; Go first tries a strict fast path (`parseRFC3339`) whose accepted set
   is a subset with the same values, so the general parser alone determines the verdict.  What it accepts
   beyond RFC 3339 (determined by experiment against Go, all of it modelled): a one-digit hour (`T0:00:00Z`),
-  `,` as fraction separator, zone offsets with hour 24 and/or minute 60, any number of fraction digits
-  (those after the ninth are dropped).  What it rejects although RFC 3339 allows it: lower-case `t`/`z`,
+  `,` as fraction separator (`unmarshalTimestamp` rejects any string containing ','), zone offsets with hour 24
+  and/or minute 60, any number of fraction digits (those after the ninth are dropped).  What it rejects although RFC 3339 allows it: lower-case `t`/`z`,
   second 60.  The standard library is not verified by proof; the model is tied to it by the harness.
 * FieldMask: `marshalFieldMask` / `unmarshalFieldMask` with private copies of `strs.JSONCamelCase`,
   `strs.JSONSnakeCase`, `protoreflect.FullName.IsValid`, `strings.TrimSpace`, `strings.Split(·, ",")`.
@@ -89,7 +89,10 @@ def durIntPart : Str → Option (Str × Str)
     if c = '0' then some ([], t)                                       -- case b[0] == '0': b = b[1:]
     else if 49 ≤ c.toNat ∧ c.toNat ≤ 57 then                            -- case '1' <= b[0] && b[0] <= '9'
       some (c :: (takeDigits t).1, (takeDigits t).2)
-    else if c = '.' then some ([], c :: t)                              -- case b[0] == '.': continue below
+    else if c = '.' then                                                -- case b[0] == '.':
+      match t with                                                      --   len(b) < 2 || b[1] < '0' || '9' < b[1] → invalid
+      | [] => none
+      | d :: _ => if isDigit d then some ([], c :: t) else none
     else none                                                           -- default
 
 /-- The fraction block of `parseDuration`: `none` = invalid, `some none` = no fraction (`hasFrac = false`),
@@ -374,6 +377,7 @@ def tooManyFracDigits (s : Str) : Bool :=
 def unmarshalTimestamp (s : Str) : Option (Int × Int) :=
   (parseTime s).bind fun (secs, nsec) =>
   if secs < minTimestampSeconds ∨ secs > maxTimestampSeconds then none
+  else if ',' ∈ s then none                                             -- strings.IndexByte(s, ',') >= 0
   else if tooManyFracDigits s then none
   else some (secs, (nsec : Int))
 
@@ -381,9 +385,10 @@ def unmarshalTimestamp (s : Str) : Option (Int × Int) :=
 
 RFC 3339 `date-time` as the Timestamp documentation quotes it
 (`{year}-{month}-{day}T{hour}:{min}:{sec}[.{frac_sec}]Z`, or a numeric offset instead of `Z`), with upper-case
-`T`/`Z` and without the leap second, together with the three things the code accepts beyond it, so that the
-set of accepted strings can be stated exactly: a one-digit hour (`hour1`), ',' as the fraction separator
-(`frac = some (true, _)`, then any number of digits), an offset hour of 24 / minute of 60. -/
+`T`/`Z` and without the leap second, together with what `time.Parse` accepts beyond it, so that the sets of
+accepted strings can be stated exactly: a one-digit hour (`hour1`), ',' as the fraction separator
+(`frac = some (true, _)`; accepted by `time.Parse`, rejected by `unmarshalTimestamp` since the repair of
+DESIGN finding 9), an offset hour of 24 / minute of 60. -/
 
 structure TsParts where
   year : Nat
@@ -435,9 +440,10 @@ def TsParts.Fields (p : TsParts) : Prop :=
   (∀ comma ds, p.frac = some (comma, ds) → allDigits ds ∧ ds ≠ []) ∧
   (∀ neg hh mm, p.zone = some (neg, hh, mm) → hh ≤ 24 ∧ mm ≤ 60)
 
-/-- what `unmarshalTimestamp` accepts: with '.', at most nine fraction digits -/
+/-- what `unmarshalTimestamp` accepts: the separator is '.', at most nine fraction digits
+(`time.Parse` alone would also take ','; `unmarshalTimestamp` rejects every string containing one) -/
 def TsParts.Accepted (p : TsParts) : Prop :=
-  p.Fields ∧ ∀ ds, p.frac = some (false, ds) → ds.length ≤ 9
+  p.Fields ∧ ∀ comma ds, p.frac = some (comma, ds) → comma = false ∧ ds.length ≤ 9
 
 /-- RFC 3339 with at most nine fraction digits: two-digit hour, '.', offset 00..23 ':' 00..59 -/
 def TsParts.Rfc3339 (p : TsParts) : Prop :=
